@@ -442,7 +442,7 @@ register("C17", streams=[Q("all", apis=["find_matches", "find", "get_match"], sr
          extra=[families.MutateFamily("set", 500, 15000, "writers given a trace callable on every other call: outcome and object graph as without")],
          rule="full trace event stream (last_match, vertex index, next_match, predicate_match) compared with the machine model; unstamped events compared with the specification stream; traced vs untraced runs compared on the python side")
 register("C20", generated=["Budget"], streams=[Q("all", apis=["find_matches"], src=None, nexts="drain")],
-         observables=["attempts_bound", "results_exc", "tie:attempts"], oracles=[oracles.work_bound_oracle, oracles.cyclic_oracle, oracles.cyclic_optional_oracle, oracles.deep_oracle],
+         observables=["attempts_bound", "results_exc", "tie:attempts"], oracles=[oracles.work_bound_oracle, oracles.rescan_oracle, oracles.cyclic_oracle, oracles.cyclic_optional_oracle, oracles.deep_oracle],
          extra=[families.GraphFamily("cyclic", 8, 150, "per-next() trace-event count and signal on self-referential structures under the real budget")],
          rule="number of trace events of a drained search compared with the specification's attempt count and with 2 x examinations; cyclic dict/list structures with the real budget as support")
 
